@@ -59,7 +59,7 @@ structure Law (s : Sem E V T) (cov : T → V → V → Prop) : Prop where
   none_items : ∀ L l0 l1, s.isNone L = true → cov L l0 l1 → ∀ (i : Nat) a0 a1 x,
     (s.items l0)[i]? = some (a0, x) → (s.items l1)[i]? = some (a1, x) → cov s.none a0 a1
   /-- an index whose subtree is absent or leaves the key field alone existed before, with the same key -/
-  key_kept : ∀ key L l0 l1, cov L l0 l1 → ∀ a1 x, (a1, x) ∈ s.items l1 →
+  key_kept : ∀ key L l0 l1, cov L l0 l1 → s.isNone L = false → ∀ a1 x, (a1, x) ∈ s.items l1 →
     (subMark s key (s.child L x) = .none ∨ subMark s key (s.child L x) = .sub false) →
     ∃ a0, (a0, x) ∈ s.items l0 ∧ s.rawKey key a0 = s.rawKey key a1
   /-- a tree none of whose children is `true` or marks the key field leaves indexes and keys as they were -/
@@ -238,7 +238,7 @@ theorem keyed_renders (s : Sem E V T) {cov : T → V → V → Prop} (law : Law 
         -- the reused node is the one of the same index, provided the subtree leaves the key alone
         have hsame : (subMark s key (s.child L x1) = .none ∨ subMark s key (s.child L x1) = .sub false) → (a0, x0) ∈ s.items l0 ∧ x0 = x1 := by
           intro hm
-          obtain ⟨a0', hm0', hkey⟩ := law.key_kept key L l0 l1 hL a1 x1 hm1 hm
+          obtain ⟨a0', hm0', hkey⟩ := law.key_kept key L l0 l1 hL hnone a1 x1 hm1 hm
           obtain ⟨p, hp⟩ := List.mem_iff_getElem?.mp hm0'
           -- new side: `k` is the raw key of position i, which occurs once
           have hnk := GE.Rlm.uniq_at _ i k hk
@@ -583,7 +583,7 @@ theorem toyLaw : Law toySem toyCov where
       rw [h0] at h1
       exact Or.inr (by cases h1; rfl)
   key_kept := by
-    intro key L l0 l1 h a1 x hm hs
+    intro key L l0 l1 h _ a1 x hm hs
     have hL : L = false := by
       simp only [subMark, toySem] at hs
       cases L with
